@@ -312,6 +312,25 @@ def run_case(case):
             if ntri != (0 if bdir == "i" else 1):
                 raise Violation("real_port_buffer_cells", -1, {"dir": bdir, "tribuf_cells": ntri})
             import re as _re
+            # the pads the emitted text refers to are exactly those the buffer's port is made of (a slice or concatenation may
+            # pick non-adjacent or reordered bits of one IOPort)
+            used = set()
+            for line in t1.splitlines():
+                ls = line.strip()
+                if ls.startswith("wire ") or ls.startswith("attribute "):
+                    continue
+                for mm_ in _re.finditer(r"\\io(\d+)(?: \[(\d+)(?::(\d+))?\])?", ls):
+                    bi_ = int(mm_.group(1))
+                    if mm_.group(2) is None:
+                        used |= {(bi_, k_) for k_ in range(bases[bi_]["width"])}
+                    elif mm_.group(3) is None:
+                        used.add((bi_, int(mm_.group(2))))
+                    else:
+                        used |= {(bi_, k_) for k_ in range(int(mm_.group(3)), int(mm_.group(2)) + 1)}
+            want_pads = {(b_[0], b_[1]) for b_ in bits}
+            if used != want_pads:
+                raise Violation("real_port_pads_in_netlist", -1, {"dir": bdir, "emitted": sorted(used), "expected": sorted(want_pads)})
+            P["real_port_pads_checked"] = P.get("real_port_pads_checked", 0) + 1
             for en in _re.findall(r"connect \\EN (\S+)", t1):
                 if en[0].isdigit():
                     raise Violation("real_port_output_enable_constant", -1, {"dir": bdir, "EN": en})
